@@ -266,6 +266,10 @@ pub const REJECTED: &[&str] = &[
 pub const REJECTED_LUAU: &[&str] = &["const a = 1 a = 2", "const a, b = 1, 2 b += 1", "const function f() end f = nil", "const a = 1 do local function g() a = 3 end end", "const a = 1 function a() end"];
 pub const ACCEPTED_LUAU: &[&str] = &["const a = 1 local a = 2 a = 3", "const a = 1 do local a a = 2 end return a", "const t = {} t.x = 1 t[1] = 2", "local a = 1 const b = a a = 2"];
 
+/// Lua 5.1 only (llex.c, read_long_string): `[[` inside a level-0 long string or comment is an error
+pub const REJECTED_LUA51: &[&str] = &["return [[a [[b]]", "--[[ c [[ d ]] return 1", "return [[ [[ ]]"];
+pub const ACCEPTED_BOTH: &[&str] = &["return [=[a [[b]=]", "return [[a [=[b]]", "return [[a [ [b]]", "--[==[ c [[ d ]==] return 1"];
+
 pub const ACCEPTED: &[&str] = &["return ...", "local a = ... return function(...) return ... end", "local function f(a, ...) return select('#', ...) end"];
 
 /// returns the list of failures
@@ -275,6 +279,21 @@ pub fn run_vectors() -> Vec<String> {
         for mode in [Mode::Luau, Mode::Lua51] {
             if super::parser::parse(src.as_bytes(), mode).is_ok() {
                 failures.push(format!("`{}` must be rejected", src));
+            }
+        }
+    }
+    for src in REJECTED_LUA51 {
+        if super::parser::parse(src.as_bytes(), Mode::Lua51).is_ok() {
+            failures.push(format!("`{}` must be rejected by the Lua 5.1 grammar", src));
+        }
+        if super::parser::parse(src.as_bytes(), Mode::Luau).is_err() {
+            failures.push(format!("`{}` must be accepted by the Luau grammar", src));
+        }
+    }
+    for src in ACCEPTED_BOTH {
+        for mode in [Mode::Luau, Mode::Lua51] {
+            if super::parser::parse(src.as_bytes(), mode).is_err() {
+                failures.push(format!("`{}` must be accepted", src));
             }
         }
     }
